@@ -338,10 +338,19 @@ func (l *Layout) subgraphSDL(sg int) string {
 		reachField(t, f)
 		if f.Requires != "" {
 			u.requires[f.Name] = f.Requires
-			for _, fn := range selectionFieldNames(f.Requires) {
-				u.external[fn] = true
-				reachField(t, t.Field(fn))
+			var mark func(sel string, depth int)
+			mark = func(sel string, depth int) {
+				for _, fn := range selectionFieldNames(sel) {
+					u.external[fn] = true
+					reachField(t, t.Field(fn))
+					// an input that is itself a computed (@requires) field and is owned here
+					// pulls its own inputs in: the requiring field inherits them
+					if rf := t.Field(fn); rf != nil && rf.Requires != "" && depth < 4 && l.owns(sg, FieldRef{t.Name, fn}) {
+						mark(rf.Requires, depth+1)
+					}
+				}
 			}
+			mark(f.Requires, 0)
 		}
 	}
 	// a field that is both external (for provides/requires) and owned is owned
@@ -395,8 +404,9 @@ func (l *Layout) subgraphSDL(sg int) string {
 				case u.owned[f.Name]:
 					extra := ""
 					if r := u.requires[f.Name]; r != "" {
-						// only the inputs this subgraph does not own itself are required
-						if ext := externalPart(r, u.external); ext != "" {
+						// only the inputs this subgraph does not own itself are required;
+						// owned inputs that are computed fields contribute their own inputs
+						if ext := l.effectiveRequires(&t, r, u.external, 0); ext != "" {
 							extra += fmt.Sprintf(" @requires(fields: %q)", ext)
 						}
 					}
@@ -452,4 +462,54 @@ func externalPart(sel string, external map[string]bool) string {
 		}
 	}
 	return strings.Join(out, " ")
+}
+
+// effectiveRequires: the external part of a @requires selection, with owned
+// computed inputs replaced (transitively) by the external part of their own
+// requirements.
+func (l *Layout) effectiveRequires(t *Type, sel string, external map[string]bool, depth int) string {
+	var parts []string
+	seen := map[string]bool{}
+	add := func(p string) {
+		if p != "" && !seen[p] {
+			seen[p] = true
+			parts = append(parts, p)
+		}
+	}
+	for _, m := range splitSelection(sel) {
+		if external[m.name] {
+			add(m.text)
+			continue
+		}
+		if rf := t.Field(m.name); rf != nil && rf.Requires != "" && depth < 4 {
+			add(l.effectiveRequires(t, rf.Requires, external, depth+1))
+		}
+	}
+	return strings.Join(parts, " ")
+}
+
+type selMember struct{ name, text string }
+
+// splitSelection splits a selection set text into its top-level members.
+func splitSelection(sel string) []selMember {
+	toks := strings.Fields(strings.NewReplacer("{", " { ", "}", " } ").Replace(sel))
+	var out []selMember
+	depth := 0
+	for _, t := range toks {
+		switch t {
+		case "{":
+			depth++
+			out[len(out)-1].text += " {"
+		case "}":
+			depth--
+			out[len(out)-1].text += " }"
+		default:
+			if depth == 0 {
+				out = append(out, selMember{name: t, text: t})
+			} else {
+				out[len(out)-1].text += " " + t
+			}
+		}
+	}
+	return out
 }
